@@ -174,6 +174,8 @@ var S6 = Schema{
 	Rows: []string{
 		"(1, 1, 2, 3, 4, 1.5, 2.5, 3.25, 'ch', 'vc', 'tx', 'long', '{\"a\":1}', '2024-02-29', '2024-02-29 13:14:15.123456', '2024-02-29 13:14:15', 'bin', 'blob')",
 		"(2, NULL, NULL, NULL, NULL, NULL, NULL, NULL, NULL, NULL, NULL, NULL, NULL, NULL, NULL, NULL, NULL, NULL)",
+		// empty, non-NULL values in every character and binary column
+		"(3, 0, 0, 0, 0, 0, 0, 0, '', '', '', '', '[]', '2024-01-01', '2024-01-01 00:00:00', '2024-01-01 00:00:00', '', '')",
 	},
 	Stmts: []Stmt{
 		st("update", "upd-ints", "UPDATE t_s6 SET c_tiny = 7, c_small = 8, c_int = 9, c_big = 9007199254740993 WHERE id = 1"),
@@ -184,7 +186,9 @@ var S6 = Schema{
 		st("update", "upd-nullrow", "UPDATE t_s6 SET c_int = 1, c_vc = 'v', c_dt = '2025-01-01 00:00:00', c_blob = 'b' WHERE id = 2"),
 		st("delete", "del-full", "DELETE FROM t_s6 WHERE id = 1"),
 		st("delete", "del-nullrow", "DELETE FROM t_s6 WHERE id = 2"),
-		st("insert", "ins-full", "INSERT INTO t_s6 (id, c_tiny, c_small, c_int, c_big, c_float, c_double, c_dec, c_char, c_vc, c_text, c_long, c_json, c_date, c_dt, c_ts, c_bin, c_blob) VALUES (3, 1, 2, 3, 4, 1.5, 2.5, 3.25, 'ch', 'vc', 'tx', 'long', '{}', '2024-02-29', '2024-02-29 13:14:15.5', '2024-02-29 13:14:15', ?, ?)", []byte{1, 2}, []byte{3}),
+		st("delete", "del-emptyrow", "DELETE FROM t_s6 WHERE id = 3"),
+		st("update", "upd-emptyrow", "UPDATE t_s6 SET c_int = 5 WHERE id = 3"),
+		st("insert", "ins-full", "INSERT INTO t_s6 (id, c_tiny, c_small, c_int, c_big, c_float, c_double, c_dec, c_char, c_vc, c_text, c_long, c_json, c_date, c_dt, c_ts, c_bin, c_blob) VALUES (4, 1, 2, 3, 4, 1.5, 2.5, 3.25, 'ch', 'vc', 'tx', 'long', '{}', '2024-02-29', '2024-02-29 13:14:15.5', '2024-02-29 13:14:15', ?, ?)", []byte{1, 2}, []byte{3}),
 	},
 }
 
@@ -205,7 +209,22 @@ var S7 = Schema{
 	},
 }
 
-var Schemas = []*Schema{&S1, &S2, &S3, &S4, &S5, &S6, &S7}
+// S8: auto-increment key plus a unique key the upserts go through.
+var S8 = Schema{
+	ID: "s8", Table: "t_s8", PK: []string{"id"},
+	DDL:  "CREATE TABLE t_s8 (id INT NOT NULL AUTO_INCREMENT, email VARCHAR(32), cnt INT, PRIMARY KEY (id), UNIQUE KEY uk_email (email))",
+	Rows: []string{"(1,'a@x',10)", "(2,'b@x',20)", "(3,NULL,30)", "(10,'j@x',100)"},
+	Stmts: []Stmt{
+		st("upsert", "ups-unique-keeps-key", "INSERT INTO t_s8 (email, cnt) VALUES ('a@x', 5) ON DUPLICATE KEY UPDATE cnt = cnt + 1"),
+		st("upsert", "ups-unique-changes-key", "INSERT INTO t_s8 (email, cnt) VALUES ('a@x', 5) ON DUPLICATE KEY UPDATE email = 'new@x', cnt = cnt + 1"),
+		st("upsert", "ups-unique-insert", "INSERT INTO t_s8 (email, cnt) VALUES (?, 7) ON DUPLICATE KEY UPDATE cnt = cnt + 1", "n@x"),
+		st("update", "upd-unique-col", "UPDATE t_s8 SET email = 'c@x' WHERE id = 2"),
+		st("delete", "del-by-unique", "DELETE FROM t_s8 WHERE email = ?", "b@x"),
+		st("insert", "ins-auto", "INSERT INTO t_s8 (email, cnt) VALUES ('e@x', 50)"),
+	},
+}
+
+var Schemas = []*Schema{&S1, &S2, &S3, &S4, &S5, &S6, &S7, &S8}
 
 func SchemaByID(id string) *Schema {
 	for _, s := range Schemas {
